@@ -11,7 +11,8 @@ from checks import parsegen
 from checks import probe_common as pc
 
 THEOREMS = ["C02_backends_agree", "C02_ssr_text", "C02_lit_wrapper", "C02_scope_transparent", "C02_scope_chain",
-            "C02_arm_select", "C02_ranges_agree", "C02_spec"]
+            "C02_arm_select", "C02_defaulted_agree", "C02_defaulted_literal", "C02_effective_is_walk", "C02_ranges_agree",
+            "C02_spec"]
 THEOREMS_C01B = ["C01_codegen_view", "C01_codegen_string", "C01_tuple_order", "C01_tuple_order_eval", "C01_flatten_atoms",
                  "C01_tuple_width", "C01_either_exists", "C01_either_in_range", "C01_either_injective"]
 PROPS = "theories/Props/C02.v"
@@ -52,11 +53,11 @@ def coq_cond(c):
                               "None" if hi is None else "(Some (%s, %s))" % (z2(hi), "true" if incl else "false"))
 
 
-def coq_src(value, count=None):
+def coq_src(value):
     if value[0] == "range":
         arms = ["(%s, (%s, %s))" % (core.coq_list([coq_cond(c) for c in conds]), parsegen.coq_items(items),
                                     core.coq_str(parsegen.print_items(items))) for items, conds in value[2]]
-        return "(SrcRange %s %s %s)" % ("true" if value[1] == "f32" else "false", core.coq_list(arms), z2(count))
+        return "(SrcRange %s %s)" % ("true" if value[1] == "f32" else "false", core.coq_list(arms))
     if value[0] == "lit":
         v = value[1]
         if isinstance(v, bool):
@@ -67,7 +68,19 @@ def coq_src(value, count=None):
     return "(SrcStr %s %s)" % (parsegen.coq_items(value[1]), core.coq_str(parsegen.print_items(value[1])))
 
 
-def coq_case(key, loc, a, flavours):
+def coq_tables(tag, project):
+    """preamble definitions: the inherits table of the crate and, per key, what every defining locale wrote"""
+    idx = {l: i for i, l in enumerate(project.locales)}
+    out = ["Definition INH_%s : list (N * N) := %s." % (tag, core.coq_list(
+        ["(%d, %d)" % (idx[k], idx[v]) for k, v in project.inherits.items()]))]
+    for key in project.keys:
+        rows = ["(%d, %s)" % (idx[l], coq_src(key.values[l])) for l in project.locales
+                if key.values[l][0] not in ("absent", "null")]
+        out.append("Definition K_%s_%d : list (N * src_value) := %s." % (tag, key.id, core.coq_list(rows)))
+    return "\n".join(out) + "\n"
+
+
+def coq_case(tag, project, key, loc, a, flavours):
     env = pc.env_of(key, a)
     vs = core.coq_list(["(%s, %s)" % (core.coq_str("var_" + v), core.coq_str(env[v])) for v in sorted(env)])
     cs = core.coq_list(["(%s, %s)" % (core.coq_str("comp_" + c), core.coq_str(key.tags[c])) for c in key.comps])
@@ -75,7 +88,9 @@ def coq_case(key, loc, a, flavours):
     vo = [t for f, t in sorted(flavours.items()) if f.split(":")[-1] in pc.VIEW_FLAVOURS]
     # identical outputs are listed once: the case term stays small and every distinct answer is still judged
     so, vo = sorted(set(so)), sorted(set(vo))
-    return "(mk_case %s %s %s %s %s)" % (coq_src(key.values[loc], pc.count_of(key, a) if key.range_type else None), vs, cs, core.coq_list([core.coq_str(x) for x in so]),
+    return "(mk_case K_%s_%d INH_%s %d %d %s %s %s %s %s)" % (
+        tag, key.id, tag, len(project.locales), project.locales.index(loc),
+        z2(pc.count_of(key, a)) if key.range_type else "0%Z", vs, cs, core.coq_list([core.coq_str(x) for x in so]),
                                          core.coq_list([core.coq_str(x) for x in vo]))
 
 
@@ -93,11 +108,13 @@ def expected_flavours(key):
 
 
 def source_text(v):
+    if v[0] in ("absent", "null"):
+        return v[0]
     return v[1] if v[0] == "lit" else json.dumps(pc.range_json(v), ensure_ascii=False) if v[0] == "range" else parsegen.print_items(v[1])
 
 
 def size_of(value):
-    if value[0] == "lit":
+    if value[0] in ("lit", "absent", "null"):
         return 1
     if value[0] == "range":
         return 5 + sum(size_of(("str", items)) for items, _ in value[2])
@@ -105,15 +122,16 @@ def size_of(value):
 
 
 def probe(ctx, tag, project, assignments=2):
-    """build + run one probe crate; returns (items, meta, problems)"""
+    """build + run one probe crate; returns (preamble, items, meta, problems)"""
     d = os.path.join(ctx.work, "probe_" + tag)
     os.makedirs(d, exist_ok=True)
     pc.write_crate(d, project, assignments)
     exe, log = pc.build_crate(d)
     if exe is None:
-        return [], [], [{"what": "generated probe crate does not compile", "crate": d, "log_tail": log[-2500:]}]
+        return "", [], [], [{"what": "generated probe crate does not compile", "crate": d, "log_tail": log[-2500:]}]
     res = pc.run_probe(exe)
     items, meta, problems = [], [], []
+    pre = coq_tables(tag, project)
     for key in project.keys:
         want = set(expected_flavours(key))
         for loc in project.locales:
@@ -125,9 +143,13 @@ def probe(ctx, tag, project, assignments=2):
                     continue
                 if a > 0 and not key.vars and not key.range_type:
                     continue            # no argument: the second assignment is the same observation
-                items.append(coq_case(key, loc, a, fl))
-                v = key.values[loc]
+                items.append(coq_case(tag, project, key, loc, a, fl))
+                eff = pc.effective_locale(project, key, loc)
+                v = key.values[eff]
                 meta.append({"crate": tag, "key": ".".join(key.path), "locale": loc, "assignment": a,
+                             "written_in_this_locale": key.values[loc][0] if key.values[loc][0] in ("absent", "null") else "defined",
+                             "effective_locale": eff, "inherits": project.inherits,
+                             "defined_in": [l for l in project.locales if key.values[l][0] not in ("absent", "null")],
                              "source": source_text(v), "source_kind": v[0],
                              "count": pc.count_of(key, a) if key.range_type else None,
                              "args": pc.env_of(key, a), "component_tags": key.tags, "flavours": len(fl),
@@ -135,7 +157,7 @@ def probe(ctx, tag, project, assignments=2):
                                         {"(all %d flavours)" % len(fl): next(iter(fl.values()))},
                              "size": size_of(v), "locales": len(project.locales),
                              "namespaces": bool(project.namespaces), "depth": len(key.path)})
-    return items, meta, problems
+    return pre, items, meta, problems
 
 
 def shrink_candidates(items):
@@ -167,18 +189,18 @@ def shrink(ctx, failing):
     if not cands:
         return failing
     proj = pc.Project()
-    proj.locales, proj.namespaces, proj.keys = ["en"], None, []
+    proj.locales, proj.namespaces, proj.keys, proj.inherits, proj.group_null = ["en"], None, [], {}, set()
     for i, c in enumerate(cands):
         k = pc.PKey(i, ("k%d" % i,))
         k.values["en"] = ("str", c)
         k.finish(ctx.rng)
         proj.keys.append(k)
-    items, meta, problems = probe(ctx, "shrink", proj, 2)
+    pre, items, meta, problems = probe(ctx, "shrink", proj, 2)
     if not items:
         return failing
     for m, k in zip(meta, [proj.keys[int(m["key"][1:])] for m in meta]):
         m["items"] = k.values["en"][1]
-    codes = core.coq_eval(ctx, "c02s", PRE, items, "check", min_per_shard=10)
+    codes = core.coq_eval(ctx, "c02s", PRE + pre, items, "check", min_per_shard=10)
     bad = [m for m, c in zip(meta, codes) if c == 3]
     if not bad:
         return failing
@@ -204,21 +226,31 @@ def run(ctx):
     if not okc:
         raise core.Infra("TargetCheck.v does not build: " + logc[-600:])
     rng = ctx.rng
-    plans = [("ns", dict(n_keys=60, locales=["en", "fr", "pt-BR"], namespaces=["common", "home"], wide=True))]
+    # inherits shapes: chain of depth 2 (fr-BE -> fr-CA -> fr), fork (de-AT, de-CH -> de), child of a non-default parent,
+    # cycle (es-AR <-> es-MX), explicit inheritance from the default (pt-BR -> en), none (it: implicit default)
+    plans = [("ns", dict(n_keys=48, locales=["en", "fr", "fr-CA", "fr-BE", "de", "de-AT", "de-CH", "es-AR", "es-MX", "pt-BR", "it"],
+                         namespaces=["common", "home"], wide=True,
+                         inherits={"fr-CA": "fr", "fr-BE": "fr-CA", "de-AT": "de", "de-CH": "de", "es-AR": "es-MX",
+                                   "es-MX": "es-AR", "pt-BR": "en"}))]
     if not ctx.quick:
-        plans += [("flat", dict(n_keys=90, locales=["en", "fr"], namespaces=None, wide=True)),
-                  ("many", dict(n_keys=14, locales=["l%s" % chr(97 + i) for i in range(18)], namespaces=None, wide=False)),
+        many = ["l%s" % chr(97 + i) for i in range(18)]
+        plans += [("flat", dict(n_keys=90, locales=["en", "fr", "fr-CA"], namespaces=None, wide=True, inherits={"fr-CA": "fr"})),
+                  ("many", dict(n_keys=14, locales=many, namespaces=None, wide=False,
+                                inherits={"lc": "lb", "ld": "lc", "le": "le", "lf": "la", "lg": "lr", "lr": "lq"})),
                   ("one", dict(n_keys=40, locales=["de"], namespaces=["only"], wide=True)),
-                  ("five", dict(n_keys=40, locales=["en", "fr", "de", "es", "it"], namespaces=None, wide=False))]
-    items, meta, problems, projects = [], [], [], {}
+                  ("five", dict(n_keys=40, locales=["en", "fr", "de", "es", "it"], namespaces=None, wide=False,
+                                inherits={"fr": "de", "de": "fr", "es": "it"})),
+                  ("nogaps", dict(n_keys=40, locales=["en", "fr", "pt-BR"], namespaces=["common"], wide=True, gaps=False))]
+    items, meta, problems, projects, pre = [], [], [], {}, ""
     for tag, kw in plans:
         proj = pc.gen_project(rng, **kw)
         projects[tag] = proj
-        i2, m2, p2 = probe(ctx, tag, proj)
+        pre2, i2, m2, p2 = probe(ctx, tag, proj)
+        pre += pre2
         items += i2
         meta += m2
         problems += p2
-    codes = core.coq_eval(ctx, "c02", PRE, items, "check", min_per_shard=10)
+    codes = core.coq_eval(ctx, "c02", PRE + pre, items, "check", min_per_shard=10)
     for m, c in zip(meta, codes):
         m["code"] = c
     bad = [m for m in meta if m["code"] == 3]
@@ -229,7 +261,7 @@ def run(ctx):
         first = bad[0]
         proj = projects[first["crate"]]
         key = [k for k in proj.keys if ".".join(k.path) == first["key"]][0]
-        if first["source_kind"] == "str":
+        if first["source_kind"] == "str" and first["written_in_this_locale"] == "defined":
             first["items"] = key.values[first["locale"]][1]
         first = shrink(ctx, first)
         first.pop("items", None)
@@ -245,7 +277,10 @@ def run(ctx):
             "harness_problems": problems[:5]}, no_input=True)
     hist = {}
     for m in meta:
-        k = "crate=%s,depth=%d,%s" % (m["crate"], m["depth"], m["source_kind"])
+        k = "crate=%s,%s,%s" % (m["crate"], m["source_kind"],
+                                m["written_in_this_locale"] + ("" if m["effective_locale"] == m["locale"] else
+                                                               "->default" if m["effective_locale"] == projects[m["crate"]].locales[0]
+                                                               else "->inherited"))
         hist[k] = hist.get(k, 0) + 1
     nontrivial = {(m["source"], json.dumps(m["args"], sort_keys=True), m["locale"], m["key"]) for m in meta
                   if m["source_kind"] == "range" or (m["source_kind"] == "str" and ("{{" in m["source"] or "<" in m["source"]))}
@@ -268,7 +303,9 @@ def run(ctx):
         "variable and component names are kept disjoint within a key: passing `a = ..` and `<a> = ..` together does not compile "
         "(see fixes/C08-var-comp-same-name)",
         "that t!/td!/... expand to the same builder calls is observed on the generated crates, not proved",
-        "every locale defines every key (defaulting / inheritance is C03's subject); ranges with integer and f32 counts are "
+        "a locale may leave a key (or a whole sub-key group) absent or null; the expected text is then the source of the first "
+        "locale of its `inherits` walk that defines the key, else the default's - recomputed in Coq from the configuration "
+        "(Parser/Merge.first_defined), independently of DefaultedLocales; ranges with integer and f32 counts are "
         "included (which arm contains the count is recomputed independently in Coq from the written bounds); no plurals, "
         "formatters or foreign keys in the probe values (C05/C18/C06)"])
 
